@@ -280,7 +280,7 @@ int main(int argc, char **argv)
 	}
 	std::string mode, scen, file, trace, planout, sanlog = "/tmp";
 	long long seed = 1, from = 0, count = 1, stride = 1;
-	int verbose = 0, watchdog = 30;
+	int verbose = 0, watchdog = 90;
 	bool nofork = false;
 	std::vector<std::string> sets;
 	for (int i = 1; i < argc; i++) {
